@@ -135,7 +135,14 @@ func render(leaves []leaf) []string {
 	out := make([]string, 0, len(leaves))
 	for _, l := range leaves {
 		if l.panicked != nil {
-			out = append(out, fmt.Sprintf("%s panics: %v", l.path, l.panicked))
+			what := reflect.TypeOf(l.panicked).String()
+			switch v := l.panicked.(type) {
+			case error:
+				what = v.Error()
+			case string:
+				what = v
+			}
+			out = append(out, l.path+" panics: "+what) // no fmt inside concurrent ops (see plain)
 			continue
 		}
 		r, p := l.v, l.path
@@ -160,7 +167,7 @@ func render(leaves []leaf) []string {
 		case rt.Kind() == reflect.Ptr || rt.Kind() == reflect.Interface:
 			out = append(out, p+" = nil") // walk follows every other value of these kinds
 		case rt.Kind() == reflect.Slice || rt.Kind() == reflect.Map || rt.Kind() == reflect.Func || rt.Kind() == reflect.Chan:
-			out = append(out, fmt.Sprintf("%s = %v of length %d", p, rt, r.Len()))
+			out = append(out, p+" = "+rt.String()+" of length "+strconv.Itoa(r.Len())) // no fmt inside concurrent ops (see plain)
 		default:
 			out = append(out, p+" = "+plain(r))
 		}
@@ -183,8 +190,12 @@ func plain(r reflect.Value) string {
 		return strconv.FormatUint(r.Uint(), 10)
 	case reflect.String:
 		return strconv.Quote(r.String())
+	case reflect.Float32, reflect.Float64:
+		return strconv.FormatFloat(r.Float(), 'g', -1, 64)
 	}
-	return fmt.Sprintf("%v", r.Interface())
+	// (no accessor of the present key types returns a value of another kind; fmt would put its
+	// sync.Pool between the goroutines, so the kind and type stand for the value)
+	return r.Kind().String() + " " + r.Type().String()
 }
 
 // accessorMethod is an exported method without arguments and with one or two results.
@@ -244,7 +255,8 @@ func marshalKey(k key.Key) ([]byte, error) {
 	if err != nil {
 		return nil, err
 	}
-	return append(b, fmt.Sprintf("|%v|%v", ks.OutputPrefixType(), func() uint32 { id, _ := ks.IDRequirement(); return id }())...), nil
+	id, _ := ks.IDRequirement()
+	return append(b, "|"+ks.OutputPrefixType().String()+"|"+strconv.FormatUint(uint64(id), 10)...), nil // no fmt inside concurrent ops
 }
 
 // annotatedHandle builds a one-key handle with annotations (hence monitored by the registered
@@ -280,9 +292,13 @@ func annotatedHandle(k key.Key, id *uint32, annotate bool) *keyset.Handle {
 func accessorsBuilder() builder {
 	return builder{"accessors", func(rt *rapid.T) (string, []op) {
 		registerMonitoring()
-		c := rapid.SampledFrom(keys.Classes()).Draw(rt, "keyclass")
-		info := keys.DrawUsable(rt, "key", c)
+		// (the key type by the stratified choice over all 29 types, see pickIndex)
+		types := keys.AllTypes()
+		info := keys.DrawTypeUsable(rt, "key", types[pickIndex(rt, "accessors_type", len(types))])
+		c := info.Class
+		caseSub = append(caseSub, info.Type)
 		if info.Type == "SlhDsa" && info.Fields["sig_type"] == "SMALL_SIGNATURE" {
+			evid.Add("skipped/accessors_slhdsa_small_signature", 1)
 			rt.Skip("SLH-DSA s sets are too slow under the race detector")
 		}
 		k := info.Key
